@@ -17,80 +17,164 @@ package ds
 type set
   monitor applyMutex level 7 guards
 
--- constructors and foreign set objects: assumed not to touch the set under proof
+-- ---------------------------------------------------------------------------------------------------------------
+-- Interface-level model of the OTHER sets an operation works with (arguments, result sets, mutation objects): ghost
+-- membership smem[set][element], allocation salive, and the two sets of a mutations object (madd / mdel). Contracts below
+-- are instantiated for ElementType = int. The set under proof itself is described by its ordered map's dictionary
+-- (has(D, e), D = s.readableSet.SerializableOrderedMap.OrderedMap.dictionary.m; OrderedMap is verified in ds/orderedmap).
+global smem (Array Int (Array Int Bool))
+global salive BoolArr
+global madd IntArr
+global mdel IntArr
+global snapdom (Array Int Bool)      -- the members when the running bulk operation started (ghost)
+global snapmid (Array Int Bool)      -- the members between the two phases of apply (ghost)
+global addedset Int                  -- the result set of apply's first phase (ghost)
+global snapadded (Array Int Bool)    -- ... and its contents when the second phase starts (ghost)
+
+-- constructors and foreign set objects: new objects, assumed not to touch the set under proof
 assume-func github.com/iotaledger/hive.go/ds.NewSet(elements) (r)
-  ensures r != nil
+  modifies ghost(smem), ghost(salive)
+  ensures r != nil && !old(sel(salive, r)) && salive == upd(old(salive), r, true)
+  ensures forall x Int :: x != r ==> sel(smem, x) == sel(old(smem), x)
+  ensures len(elements) == 0 ==> forall e Int :: !sel(sel(smem, r), e)
+  ensures forall e Int :: sel(sel(smem, r), e) ==> exists i Int :: 0 <= i && i < len(elements) && elements[i] == e
+  ensures forall i Int :: 0 <= i && i < len(elements) ==> sel(sel(smem, r), elements[i])
 assume-func github.com/iotaledger/hive.go/ds.NewSetMutations(elements) (r)
-  ensures r != nil
+  modifies ghost(smem), ghost(salive), ghost(madd), ghost(mdel)
+  ensures r != nil && !old(sel(salive, r)) && sel(salive, r)
+  ensures forall x Int :: old(sel(salive, x)) ==> sel(salive, x) && sel(smem, x) == sel(old(smem), x) && sel(madd, x) == sel(old(madd), x) && sel(mdel, x) == sel(old(mdel), x)
 
 -- iteration interfaces: invoke the callback sequentially in the caller's goroutine, locks unchanged
 func ReadableSet.ForEach(recv, callback) (err)
   opt invokes callback
 func ReadableSet.Range(recv, callback)
   opt invokes callback
+func Set.Range(recv, callback)
+  opt invokes callback
 func ReadableSet.ToSlice(recv) (r)
-  ensures true
+  ensures forall i Int :: 0 <= i && i < len(r) ==> sel(sel(smem, recv), r[i])
+func ReadableSet.Has(recv, element) (r)
+  ensures r <==> sel(sel(smem, recv), element)
+func ReadableSet.Size(recv) (r)
+  ensures r >= 0
 func Set.Add(recv, element) (r)
-  ensures true
+  modifies ghost(smem)
+  ensures r <==> !old(sel(sel(smem, recv), element))
+  ensures smem == upd(old(smem), recv, upd(sel(old(smem), recv), element, true))
+func Set.Delete(recv, element) (r)
+  modifies ghost(smem)
+  ensures r <==> old(sel(sel(smem, recv), element))
+  ensures smem == upd(old(smem), recv, upd(sel(old(smem), recv), element, false))
 func SetMutations.AddedElements(recv) (r)
-  ensures r != nil
+  ensures r == sel(madd, recv) && r != nil
 func SetMutations.DeletedElements(recv) (r)
-  ensures r != nil
+  ensures r == sel(mdel, recv) && r != nil
 func SetMutations.WithAddedElements(recv, e) (r)
-  ensures r != nil
+  modifies ghost(madd)
+  ensures r == recv && madd == upd(old(madd), recv, e)
 func SetMutations.WithDeletedElements(recv, e) (r)
-  ensures r != nil
+  modifies ghost(mdel)
+  ensures r == recv && mdel == upd(old(mdel), recv, e)
 
+-- ---------------------------------------------------------------------------------------------------------------
+-- single-element writers: report prior presence, change that element only
 func set.Add
+  instantiate ElementType: int
   opt sequential
   requires s != nil && s.readableSet != nil && s.readableSet.SerializableOrderedMap != nil && s.readableSet.SerializableOrderedMap.OrderedMap != nil
   requires unlocked(s.applyMutex) && unlocked(s.readableSet.SerializableOrderedMap.OrderedMap.mutex)
   modifies everything
+  preserves ghost(smem), ghost(salive), ghost(madd), ghost(mdel)
   ensures unlocked(s.applyMutex)
+  ensures r0 <==> !old(has(s.readableSet.SerializableOrderedMap.OrderedMap.dictionary.m, element))
+  ensures has(s.readableSet.SerializableOrderedMap.OrderedMap.dictionary.m, element)
+  ensures forall k Int :: k != element ==> (has(s.readableSet.SerializableOrderedMap.OrderedMap.dictionary.m, k) <==> old(has(s.readableSet.SerializableOrderedMap.OrderedMap.dictionary.m, k)))
 
 func set.Delete
+  instantiate ElementType: int
   opt sequential
   requires s != nil && s.readableSet != nil && s.readableSet.SerializableOrderedMap != nil && s.readableSet.SerializableOrderedMap.OrderedMap != nil
   requires unlocked(s.applyMutex) && unlocked(s.readableSet.SerializableOrderedMap.OrderedMap.mutex)
   modifies everything
+  preserves ghost(smem), ghost(salive), ghost(madd), ghost(mdel)
   ensures unlocked(s.applyMutex)
+  ensures r0 <==> old(has(s.readableSet.SerializableOrderedMap.OrderedMap.dictionary.m, element))
+  ensures !has(s.readableSet.SerializableOrderedMap.OrderedMap.dictionary.m, element)
+  ensures forall k Int :: k != element ==> (has(s.readableSet.SerializableOrderedMap.OrderedMap.dictionary.m, k) <==> old(has(s.readableSet.SerializableOrderedMap.OrderedMap.dictionary.m, k)))
 
+-- ---------------------------------------------------------------------------------------------------------------
+-- bulk operations: the result holds exactly the elements whose membership changed. Each per-element closure is under
+-- contract; what every invocation maintains (relative to the members at the start, ghost snapdom) is known after the
+-- iteration. (That the iteration visits every element of the argument is the argument set's ForEach, not decided here:
+-- the statements are "exact diff" and "nothing else changes", not "all of the argument has been processed".)
 func set.AddAll
+  instantiate ElementType: int
   opt sequential
-  requires s != nil && elements != nil && s.readableSet != nil && s.readableSet.SerializableOrderedMap != nil && s.readableSet.SerializableOrderedMap.OrderedMap != nil
+  requires s != nil && s.readableSet != nil && s.readableSet.SerializableOrderedMap != nil && s.readableSet.SerializableOrderedMap.OrderedMap != nil && elements != nil
   requires unlocked(s.applyMutex) && unlocked(s.readableSet.SerializableOrderedMap.OrderedMap.mutex)
   modifies everything
+  ghost before call ReadableSet.ForEach: snapdom = dom(s.readableSet.SerializableOrderedMap.OrderedMap.dictionary.m)
   ensures unlocked(s.applyMutex)
+  ensures addedElements != nil
+  -- exactly the new members are reported, and nothing left the set
+  ensures forall e Int :: sel(sel(smem, addedElements), e) <==> (has(s.readableSet.SerializableOrderedMap.OrderedMap.dictionary.m, e) && !old(has(s.readableSet.SerializableOrderedMap.OrderedMap.dictionary.m, e)))
+  ensures forall e Int :: old(has(s.readableSet.SerializableOrderedMap.OrderedMap.dictionary.m, e)) ==> has(s.readableSet.SerializableOrderedMap.OrderedMap.dictionary.m, e)
 func set.AddAll$1
+  instantiate ElementType: int
   opt sequential
   requires s != nil && *s != nil && (*s).readableSet != nil && (*s).readableSet.SerializableOrderedMap != nil && (*s).readableSet.SerializableOrderedMap.OrderedMap != nil && addedElements != nil && *addedElements != nil
   requires rheld((*s).applyMutex) && unlocked((*s).readableSet.SerializableOrderedMap.OrderedMap.mutex)
   modifies everything
-  ensures rheld((*s).applyMutex)
+  preserves ghost(snapdom), ghost(salive), ghost(madd), ghost(mdel), *addedElements, *s, (*s).readableSet, (*s).readableSet.SerializableOrderedMap, (*s).readableSet.SerializableOrderedMap.OrderedMap
+  maintains forall e Int :: sel(snapdom, e) ==> has((*s).readableSet.SerializableOrderedMap.OrderedMap.dictionary.m, e)
+  maintains forall e Int :: sel(sel(smem, *addedElements), e) <==> (has((*s).readableSet.SerializableOrderedMap.OrderedMap.dictionary.m, e) && !sel(snapdom, e))
+  ensures rheld((*s).applyMutex) && r0 == nil
+  ensures has((*s).readableSet.SerializableOrderedMap.OrderedMap.dictionary.m, element) && forall k Int :: k != element ==> (has((*s).readableSet.SerializableOrderedMap.OrderedMap.dictionary.m, k) <==> old(has((*s).readableSet.SerializableOrderedMap.OrderedMap.dictionary.m, k)))
+  ensures forall x Int :: x != *addedElements ==> sel(smem, x) == sel(old(smem), x)
 
 func set.DeleteAll
+  instantiate ElementType: int
   opt sequential
-  requires s != nil && other != nil && s.readableSet != nil && s.readableSet.SerializableOrderedMap != nil && s.readableSet.SerializableOrderedMap.OrderedMap != nil
+  requires s != nil && s.readableSet != nil && s.readableSet.SerializableOrderedMap != nil && s.readableSet.SerializableOrderedMap.OrderedMap != nil && other != nil
   requires unlocked(s.applyMutex) && unlocked(s.readableSet.SerializableOrderedMap.OrderedMap.mutex)
   modifies everything
+  ghost before call ReadableSet.ForEach: snapdom = dom(s.readableSet.SerializableOrderedMap.OrderedMap.dictionary.m)
   ensures unlocked(s.applyMutex)
+  ensures removedElements != nil
+  -- exactly the former members that are gone are reported, and nothing entered the set
+  ensures forall e Int :: sel(sel(smem, removedElements), e) <==> (old(has(s.readableSet.SerializableOrderedMap.OrderedMap.dictionary.m, e)) && !has(s.readableSet.SerializableOrderedMap.OrderedMap.dictionary.m, e))
+  ensures forall e Int :: has(s.readableSet.SerializableOrderedMap.OrderedMap.dictionary.m, e) ==> old(has(s.readableSet.SerializableOrderedMap.OrderedMap.dictionary.m, e))
 func set.DeleteAll$1
+  instantiate ElementType: int
   opt sequential
   requires s != nil && *s != nil && (*s).readableSet != nil && (*s).readableSet.SerializableOrderedMap != nil && (*s).readableSet.SerializableOrderedMap.OrderedMap != nil && removedElements != nil && *removedElements != nil
   requires rheld((*s).applyMutex) && unlocked((*s).readableSet.SerializableOrderedMap.OrderedMap.mutex)
   modifies everything
-  ensures rheld((*s).applyMutex)
+  preserves ghost(snapdom), ghost(salive), ghost(madd), ghost(mdel), *removedElements, *s, (*s).readableSet, (*s).readableSet.SerializableOrderedMap, (*s).readableSet.SerializableOrderedMap.OrderedMap
+  maintains forall e Int :: has((*s).readableSet.SerializableOrderedMap.OrderedMap.dictionary.m, e) ==> sel(snapdom, e)
+  maintains forall e Int :: sel(sel(smem, *removedElements), e) <==> (sel(snapdom, e) && !has((*s).readableSet.SerializableOrderedMap.OrderedMap.dictionary.m, e))
+  ensures rheld((*s).applyMutex) && r0 == nil
+  ensures !has((*s).readableSet.SerializableOrderedMap.OrderedMap.dictionary.m, element) && forall k Int :: k != element ==> (has((*s).readableSet.SerializableOrderedMap.OrderedMap.dictionary.m, k) <==> old(has((*s).readableSet.SerializableOrderedMap.OrderedMap.dictionary.m, k)))
+  ensures forall x Int :: x != *removedElements ==> sel(smem, x) == sel(old(smem), x)
 
 -- Apply / Compute / Replace are atomic with respect to each other: everything they do to the set - including
 -- the call of Compute's mutation factory - happens inside one write section of applyMutex
 func set.Apply
+  instantiate ElementType: int
   opt sequential
-  requires s != nil && mutations != nil && s.readableSet != nil && s.readableSet.SerializableOrderedMap != nil && s.readableSet.SerializableOrderedMap.OrderedMap != nil
+  requires s != nil && s.readableSet != nil && s.readableSet.SerializableOrderedMap != nil && s.readableSet.SerializableOrderedMap.OrderedMap != nil && mutations != nil
   requires unlocked(s.applyMutex) && unlocked(s.readableSet.SerializableOrderedMap.OrderedMap.mutex)
   modifies everything
   ensures unlocked(s.applyMutex)
+  ensures appliedMutations != nil && sel(madd, appliedMutations) != nil && sel(mdel, appliedMutations) != nil
+  -- reported added: the members gained by the first phase; reported deleted: the members lost by the second
+  ensures forall e Int :: sel(sel(smem, sel(madd, appliedMutations)), e) <==> (sel(snapmid, e) && !old(has(s.readableSet.SerializableOrderedMap.OrderedMap.dictionary.m, e)))
+  ensures forall e Int :: sel(sel(smem, sel(mdel, appliedMutations)), e) <==> (sel(snapmid, e) && !has(s.readableSet.SerializableOrderedMap.OrderedMap.dictionary.m, e))
+  ensures forall e Int :: old(has(s.readableSet.SerializableOrderedMap.OrderedMap.dictionary.m, e)) ==> sel(snapmid, e)
+  ensures forall e Int :: has(s.readableSet.SerializableOrderedMap.OrderedMap.dictionary.m, e) ==> sel(snapmid, e)
 
 func set.Compute
+  instantiate ElementType: int
   opt sequential
   requires s != nil && s.readableSet != nil && s.readableSet.SerializableOrderedMap != nil && s.readableSet.SerializableOrderedMap.OrderedMap != nil
   requires unlocked(s.applyMutex) && unlocked(s.readableSet.SerializableOrderedMap.OrderedMap.mutex)
@@ -99,23 +183,48 @@ func set.Compute
     ensures m != nil
   modifies everything
   ensures unlocked(s.applyMutex)
+  ensures appliedMutations != nil && sel(madd, appliedMutations) != nil && sel(mdel, appliedMutations) != nil
+  ensures forall e Int :: sel(sel(smem, sel(mdel, appliedMutations)), e) <==> (sel(snapmid, e) && !has(s.readableSet.SerializableOrderedMap.OrderedMap.dictionary.m, e))
+  ensures forall e Int :: has(s.readableSet.SerializableOrderedMap.OrderedMap.dictionary.m, e) ==> sel(snapmid, e)
 
 func set.apply
+  instantiate ElementType: int
   opt sequential
-  requires s != nil && mutations != nil && s.readableSet != nil && s.readableSet.SerializableOrderedMap != nil && s.readableSet.SerializableOrderedMap.OrderedMap != nil
+  requires s != nil && s.readableSet != nil && s.readableSet.SerializableOrderedMap != nil && s.readableSet.SerializableOrderedMap.OrderedMap != nil && mutations != nil
   requires held(s.applyMutex) && unlocked(s.readableSet.SerializableOrderedMap.OrderedMap.mutex)
   modifies everything
+  ghost before call Set.Range #1: snapdom = dom(s.readableSet.SerializableOrderedMap.OrderedMap.dictionary.m)
+  ghost before call Set.Range #2: snapmid = dom(s.readableSet.SerializableOrderedMap.OrderedMap.dictionary.m)
+  ghost before call Set.Range #2: snapdom = dom(s.readableSet.SerializableOrderedMap.OrderedMap.dictionary.m)
+  ghost before call Set.Range #2: addedset = addedElements
+  ghost before call Set.Range #2: snapadded = sel(smem, addedElements)
   ensures held(s.applyMutex)
+  ensures appliedMutations != nil && sel(madd, appliedMutations) != nil && sel(mdel, appliedMutations) != nil
+  ensures forall e Int :: sel(sel(smem, sel(madd, appliedMutations)), e) <==> (sel(snapmid, e) && !old(has(s.readableSet.SerializableOrderedMap.OrderedMap.dictionary.m, e)))
+  ensures forall e Int :: sel(sel(smem, sel(mdel, appliedMutations)), e) <==> (sel(snapmid, e) && !has(s.readableSet.SerializableOrderedMap.OrderedMap.dictionary.m, e))
+  ensures forall e Int :: old(has(s.readableSet.SerializableOrderedMap.OrderedMap.dictionary.m, e)) ==> sel(snapmid, e)
+  ensures forall e Int :: has(s.readableSet.SerializableOrderedMap.OrderedMap.dictionary.m, e) ==> sel(snapmid, e)
 func set.apply$1
+  instantiate ElementType: int
   opt sequential
   requires s != nil && *s != nil && (*s).readableSet != nil && (*s).readableSet.SerializableOrderedMap != nil && (*s).readableSet.SerializableOrderedMap.OrderedMap != nil && addedElements != nil && *addedElements != nil
   requires held((*s).applyMutex) && unlocked((*s).readableSet.SerializableOrderedMap.OrderedMap.mutex)
   modifies everything
+  preserves ghost(snapdom), ghost(snapmid), ghost(salive), ghost(madd), ghost(mdel), *addedElements, *s, (*s).readableSet, (*s).readableSet.SerializableOrderedMap, (*s).readableSet.SerializableOrderedMap.OrderedMap
+  maintains forall e Int :: sel(snapdom, e) ==> has((*s).readableSet.SerializableOrderedMap.OrderedMap.dictionary.m, e)
+  maintains forall e Int :: sel(sel(smem, *addedElements), e) <==> (has((*s).readableSet.SerializableOrderedMap.OrderedMap.dictionary.m, e) && !sel(snapdom, e))
   ensures held((*s).applyMutex)
+  ensures forall x Int :: x != *addedElements ==> sel(smem, x) == sel(old(smem), x)
 func set.apply$2
+  instantiate ElementType: int
   opt sequential
   requires s != nil && *s != nil && (*s).readableSet != nil && (*s).readableSet.SerializableOrderedMap != nil && (*s).readableSet.SerializableOrderedMap.OrderedMap != nil && removedElements != nil && *removedElements != nil
   requires held((*s).applyMutex) && unlocked((*s).readableSet.SerializableOrderedMap.OrderedMap.mutex)
   modifies everything
+  preserves ghost(snapdom), ghost(snapmid), ghost(addedset), ghost(snapadded), ghost(salive), ghost(madd), ghost(mdel), *removedElements, *s, (*s).readableSet, (*s).readableSet.SerializableOrderedMap, (*s).readableSet.SerializableOrderedMap.OrderedMap
+  maintains forall e Int :: has((*s).readableSet.SerializableOrderedMap.OrderedMap.dictionary.m, e) ==> sel(snapdom, e)
+  maintains forall e Int :: sel(sel(smem, *removedElements), e) <==> (sel(snapdom, e) && !has((*s).readableSet.SerializableOrderedMap.OrderedMap.dictionary.m, e))
+  maintains *removedElements != addedset && sel(smem, addedset) == snapadded        -- the first phase's result is left alone
   ensures held((*s).applyMutex)
+  ensures forall x Int :: x != *removedElements ==> sel(smem, x) == sel(old(smem), x)
 @*/
